@@ -214,7 +214,7 @@ _PATCHES = {
         ("Verus contracts on the real replacement() driver and MuPlusLambda::replace + Kani/CBMC Hoare triples on the replace kernels",
          "Verus contracts on the real replacement() driver and the replace kernels + Kani/CBMC Hoare triples on the replace kernels"),
         ("The kernels DiscardOffspring, Generational, Merge, MuPlusLambda, RandomReplacement are also checked",
-         "DiscardOffspring, Generational, Merge and RandomReplacement::replace are proved (unbounded) to return all parents / all offspring / their concatenation / min(mu, total) individuals that are a sub-multiset of parents ++ offspring. All five kernels are also checked"),
+         "DiscardOffspring, Generational, Merge and RandomReplacement::replace are proved (unbounded) to return all parents / all offspring / their concatenation / min(mu, total) individuals that are a sub-multiset of parents ++ offspring. DiscardOffspring, Generational, Merge and MuPlusLambda are also checked"),
         ("assumed std meaning of Vec::extend / sort_unstable_by_key / truncate in the Verus unit",
          "assumed std/rand meaning of Vec::extend / into_iter().chain().collect() / shuffle / sort_unstable_by_key / truncate in the Verus units"),
     ],
